@@ -46,7 +46,7 @@ fn clear_contract(pre: (Repr, Ghost)) {
     core::mem::forget(s);
 }
 
-// @harness name=clear_heap hist=yes props=C01,C02,C03,C11 class=U tier=quick big=yes fn=LeanString::clear
+// @harness name=clear_heap nodebug=thorough hist=yes props=C01,C02,C03,C11 class=U tier=quick big=yes fn=LeanString::clear
 #[kani::proof]
 #[kani::stub(alloc::alloc::alloc, v_alloc)]
 #[kani::stub(alloc::alloc::dealloc, v_dealloc)]
@@ -90,7 +90,7 @@ fn drop_contract(pre: (Repr, Ghost)) {
     }
 }
 
-// @harness name=drop_heap hist=yes props=C02,C03,C08 class=U tier=quick big=yes fn=Drop::drop
+// @harness name=drop_heap nodebug=thorough hist=yes props=C02,C03,C08 class=U tier=quick big=yes fn=Drop::drop
 #[kani::proof]
 #[kani::stub(alloc::alloc::alloc, v_alloc)]
 #[kani::stub(alloc::alloc::dealloc, v_dealloc)]
@@ -175,7 +175,7 @@ fn clone_api_other() {
 
 /// clone_from where target and source may be ANY two handles, including two handles on the
 /// same block with different lengths
-// @harness name=clone_from_any_pair props=C01,C02,C03,C08 class=U tier=quick fn=Clone::clone_from covers=clone_from.same_block,clone_from.target_last_owner
+// @harness name=clone_from_any_pair nodebug=thorough props=C01,C02,C03,C08 class=U tier=quick fn=Clone::clone_from covers=clone_from.same_block,clone_from.target_last_owner
 #[kani::proof]
 #[kani::stub(alloc::alloc::alloc, v_alloc)]
 #[kani::stub(alloc::alloc::dealloc, v_dealloc)]
